@@ -230,8 +230,14 @@ func runC18Colour(c *Ctx) {
 	// every node is a candidate start: the loop ranges over all values of the map parameter
 	allNodes := false
 	eachInstr(first, func(_ *ssa.BasicBlock, _ int, in ssa.Instruction) {
-		if rg, ok := in.(*ssa.Range); ok && rg.X == ssa.Value(first.Params[0]) {
-			allNodes = true
+		if rg, ok := in.(*ssa.Range); ok {
+			// the graph: the map parameter, or the rule's own map of nodes when the function is a method of the rule
+			if len(first.Params) > 0 && rg.X == ssa.Value(first.Params[0]) && typeStr(rg.X.Type()) == "map[string]*jobNode" {
+				allNodes = true
+			}
+			if f, _ := fieldLoad(rg.X); f == "RuleJobNeeds.nodes" {
+				allNodes = true
+			}
 		}
 	})
 	if allNodes {
